@@ -329,7 +329,18 @@ type ReplayFile struct {
 	Steps     int          `json:"steps"`
 	Minimised string       `json:"minimised,omitempty"`
 	Spin      bool         `json:"spin,omitempty"` // the run never ended (no tape): replay = run again under the watchdog
+	// Sequence: the violation depends on what earlier runs of the same process left behind in the code under
+	// test (package-level state shared between servers or sessions), so one scenario alone does not show it:
+	// replay = execute this worker's runs 0..RunIndex again, in a fresh process, under their own seeds
+	Sequence *SeqReplay `json:"sequence,omitempty"`
 	History   []string     `json:"history_excerpt,omitempty"`
+}
+
+// SeqReplay identifies a worker's deterministic sequence of runs.
+type SeqReplay struct {
+	Worker   int    `json:"worker"`
+	NWorkers int    `json:"nworkers"`
+	Tier     string `json:"tier"`
 }
 
 func (r *ReplayFile) JSON() []byte {
